@@ -48,9 +48,12 @@ DefectsClean(tbl, s) ==
     \cup (IF \/ Known(tbl, s) /\ Len(s) # tbl[CountryKey(s)].ilen
              \/ ~Known(tbl, s) /\ Len(s) \notin IbanLengths(tbl)
           THEN {"InvalidLength"} ELSE {})
+    \* (a BBAN of another length than the structure prescribes does not match the structure
+    \* either: both InvalidLength and InvalidStructure describe it truthfully)
     \cup (IF \/ ~HeadOK(s)
              \/ ~AllIn(s, IsAlnum)
              \/ Known(tbl, s) /\ SomePositionOutOfClass(Bban(s), tbl[CountryKey(s)])
+             \/ Known(tbl, s) /\ Len(s) # tbl[CountryKey(s)].ilen
           THEN {"InvalidStructure"} ELSE {})
     \cup (IF ~IsoOK(s) THEN {"InvalidChecksumDigits"} ELSE {})
 
